@@ -157,6 +157,44 @@ func (s *Session) BigStalledCommit(r *RNG) string {
 	return res
 }
 
+// ShrinkBelowFileSize lowers the limit of a preallocated file below its size (but above everything in
+// use): the next commit truncates the file, which replaces the memory mapping.
+func (s *Session) ShrinkBelowFileSize(r *RNG) bool {
+	if s.F == nil || s.Cfg.MaxPages == 0 {
+		return false
+	}
+	if s.Tx != nil {
+		s.Rollback("close")
+	}
+	fs := s.F.VerifSnapshot()
+	ps := uint64(s.Cfg.PageSize)
+	need := fs.DataEnd
+	if fs.MetaEnd > need {
+		need = fs.MetaEnd
+	}
+	need += 2
+	if min := uint64(65536) / ps; need < min {
+		need = min
+	}
+	if need >= fs.MaxPages {
+		return false
+	}
+	newMax := need + uint64(r.Intn(int(fs.MaxPages-need)))
+	s.CloseFile()
+	s.Cfg.InitMeta = 0
+	opts := s.Cfg.Options()
+	opts.Flags |= txfile.FlagUpdMaxSize
+	opts.MaxSize = newMax * ps
+	if res := s.OpenWith(opts, "resize-shrink"); res != "ok" {
+		s.fail("C14", "resize-open", "shrinking a preallocated file from %d to %d pages failed: %s", fs.MaxPages, newMax, res)
+		s.OpenWith(s.Cfg.Options(), "open")
+		return false
+	}
+	s.resized = true
+	s.Cfg.MaxPages = newMax
+	return true
+}
+
 // GrowTail makes the data area longer than the smallest possible limit (64 KiB) and
 // leaves a free region at its end (set-up for SessionBound).
 func (s *Session) GrowTail(r *RNG) {
@@ -453,9 +491,20 @@ func RunFaultProgram(r *RNG, cfg Config, p Params) (*Session, FaultStats) {
 	// fault kind first: mapping faults need a file whose mapping has to grow
 	kinds := []string{"write", "write", "sync", "sync", "mmap", "truncate", "size"}
 	kind := kinds[r.Intn(len(kinds))]
-	growMap := (kind == "mmap" || kind == "size") && r.Chance(70)
+	growMap := (kind == "mmap" || kind == "size") && r.Chance(60)
+	// the other way the mapping is replaced: a commit truncates a file that is larger than its (reduced) limit
+	truncPath := !growMap && (kind == "mmap" || kind == "size" || kind == "truncate") && r.Chance(70)
 	if growMap {
 		cfg.MaxPages, cfg.Prealloc = 0, false // only unbounded files are remapped when they grow
+	}
+	if truncPath {
+		cfg.Prealloc = true
+		if min := uint64(65536 / cfg.PageSize); cfg.MaxPages < min+24 {
+			cfg.MaxPages = min + 24 + uint64(r.Intn(40))
+		}
+		if uint64(cfg.InitMeta) >= cfg.MaxPages-2 {
+			cfg.InitMeta = 4
+		}
 	}
 	s := NewSession(cfg)
 	if s.Open() != "ok" {
@@ -468,6 +517,14 @@ func RunFaultProgram(r *RNG, cfg Config, p Params) (*Session, FaultStats) {
 	if s.F == nil {
 		return s, st
 	}
+	if truncPath {
+		if s.ShrinkBelowFileSize(r) {
+			s.mark("shrink-below-file-size")
+		}
+		if s.F == nil {
+			return s, st
+		}
+	}
 	// fault window
 	act := simdisk.ActErr
 	if kind == "write" && r.Chance(30) {
@@ -477,7 +534,7 @@ func RunFaultProgram(r *RNG, cfg Config, p Params) (*Session, FaultStats) {
 		act = simdisk.ActAfter
 	}
 	first := r.Intn(8)
-	if growMap {
+	if growMap || truncPath {
 		first = r.Intn(2)
 	}
 	burst := 1 + r.Intn(3)
